@@ -163,6 +163,11 @@ func (p *Path) strEq(a, b StrV) *smt.Term {
 	if sameRope(a, b) {
 		return smt.True
 	}
+	// canonical operand order, so that a == b and b == a are the same term
+	if a.String() > b.String() {
+		a, b = b, a
+		la, lb = lb, la
+	}
 	n := a.MaxLen()
 	if m := b.MaxLen(); m < n {
 		n = m
